@@ -22,7 +22,7 @@ POPS = ["π1", "π2"]
 
 
 @st.composite
-def prob_specs(draw, names=NAMES, pops=True, do=True, marks=True, cond=True):
+def prob_specs(draw, names=NAMES, pops=True, do=True, marks=True, cond=True, mixed_worlds=False):
     perm = list(draw(st.permutations(names)))
     k = draw(st.integers(1, len(perm)))
     used, rest = perm[:k], perm[k:]
@@ -37,7 +37,17 @@ def prob_specs(draw, names=NAMES, pops=True, do=True, marks=True, cond=True):
         m = draw(st.integers(1, len(rest)))
         dos = [[n, draw(st.booleans()) if marks else False] for n in sorted(rest[:m])]
     pop = draw(st.sampled_from([None, None, None, *POPS])) if pops else None
-    return {"t": "P", "ch": [[n, mark()] for n in ch], "pa": [[n, mark()] for n in pa], "do": dos, "pop": pop}
+    spec = {"t": "P", "ch": [[n, mark()] for n in ch], "pa": [[n, mark()] for n in pa], "do": dos, "pop": pop}
+    if mixed_worlds and rest and len(ch) + len(pa) >= 2 and draw(st.integers(0, 3)) == 0:
+        # level-3 mixing: every variable of the term carries its own subscript set (possibly empty, possibly the same
+        # names with different value marks)
+        spec["do"] = []
+        vdo = []
+        for _ in ch + pa:
+            m = draw(st.integers(0, len(rest)))
+            vdo.append([[n, draw(st.booleans()) if marks else False] for n in sorted(draw(st.permutations(rest))[:m])])
+        spec["vdo"] = vdo
+    return spec
 
 
 def has_zero(s) -> bool:
@@ -56,7 +66,7 @@ def has_zero(s) -> bool:
 def spec_names(s) -> set:
     t = s["t"]
     if t == "P":
-        return {n for n, _ in s["ch"] + s["pa"] + s["do"]}
+        return {n for n, _ in s["ch"] + s["pa"] + s["do"]} | {n for v in s.get("vdo", []) for n, _ in v}
     if t == "Q":
         return set(s["cod"]) | set(s["dom"])
     if t == "prod":
@@ -120,13 +130,16 @@ def _prob_vars(s):
     from y0.dsl import CounterfactualVariable, Intervention, Variable
 
     ints = frozenset(Intervention(n, star=bool(st_)) for n, st_ in s["do"])
+    vdo = s.get("vdo")
 
-    def mk(n, star):
-        if ints:
-            return CounterfactualVariable(name=n, star=star, interventions=ints)
+    def mk(k, n, star):
+        own = frozenset(Intervention(m, star=bool(st_)) for m, st_ in vdo[k]) if vdo else ints
+        if own:
+            return CounterfactualVariable(name=n, star=star, interventions=own)
         return Variable(n, star=star)
 
-    return tuple(mk(n, s_) for n, s_ in s["ch"]), tuple(mk(n, s_) for n, s_ in s["pa"])
+    nch = len(s["ch"])
+    return tuple(mk(k, n, s_) for k, (n, s_) in enumerate(s["ch"])), tuple(mk(nch + k, n, s_) for k, (n, s_) in enumerate(s["pa"]))
 
 
 def build_raw(s):
@@ -166,6 +179,12 @@ def build_public(s):
     if t == "P":
         ch = [pv(n, s_) for n, s_ in s["ch"]]
         pa = [pv(n, s_) for n, s_ in s["pa"]]
+        if s.get("vdo"):
+            allv = ch + pa
+            for k, own in enumerate(s["vdo"]):
+                if own:
+                    allv[k] = allv[k] @ [(+Variable(m) if st_ else -Variable(m)) for m, st_ in own]
+            ch, pa = allv[: len(ch)], allv[len(ch) :]
         dist = ch[0]
         if len(ch) > 1:
             dist = dist.joint(ch[1:])
@@ -200,6 +219,8 @@ def permute_presentation(s, rng):
     distribution.  ``rng`` is a SplitMix.  The denoted expression is the same."""
     t = s["t"]
     if t == "P":
+        if s.get("vdo"):
+            return dict(s)
         return {**s, "ch": rng.shuffle(s["ch"]), "pa": rng.shuffle(s["pa"]), "do": rng.shuffle(s["do"])}
     if t == "prod":
         xs = rng.shuffle([permute_presentation(x, rng) for x in s["xs"]])
